@@ -8,6 +8,7 @@ pub mod dump;
 pub mod elem;
 pub mod outcome;
 pub mod plan;
+pub mod telem;
 pub mod watchdog;
 pub mod world;
 
@@ -20,6 +21,10 @@ pub mod sse {
         use super::*;
         include!("interp_map.rs");
     }
+    pub mod table {
+        use super::*;
+        include!("interp_table.rs");
+    }
 }
 
 /// Interpreters instantiated against the portable (cfg(miri)) twin of /repo.
@@ -31,6 +36,10 @@ pub mod gen {
         use super::*;
         include!("interp_map.rs");
     }
+    pub mod table {
+        use super::*;
+        include!("interp_table.rs");
+    }
 }
 
 pub mod specs;
@@ -40,6 +49,8 @@ pub fn run_case(case: &case::Case) -> outcome::Outcome {
     match (case.kind.as_str(), case.h("backend")) {
         ("map", 0) => sse::map::run_case(case),
         ("map", _) => gen::map::run_case(case),
+        ("table", 0) => sse::table::run_case(case),
+        ("table", _) => gen::table::run_case(case),
         _ => panic!("unknown case kind {}", case.kind),
     }
 }
